@@ -16,7 +16,7 @@ func init() {
 		Level: "other",
 		Explanation: "Acknowledgement ordering decided on every path (all schedules, all store failures): R06a in executionContext.run the chained log obtained from the executor is stored/returned only after a receive on the executor's done channel (a log found by idempotency key is already persisted); every hand-off (call of a function that reaches Batcher.Append and returns the done channel) happens in an executor passed to run or in another such function that returns the channel. " +
 			"R06b the done channel is closed only inside the callback given to the hand-off or on the DryRun edge. R06c the batch callback field is invoked only in batcherJob.Terminated; Job.Terminated is invoked only in Runner.Run on values received from the channel the worker sends to, and the worker sends a job there only on the nil-error edge of the runner call. " +
-			"R06d on the error edge of the runner call every path panics; the error channel arm of Runner.Run panics. R06e InsertLogs does all its statements inside withTransaction→RunInTx on the transaction handle and drops no error. R06f no executor returns an error after a successful hand-off.",
+			"R06d on the error edge of the runner call every path panics; the error channel arm of Runner.Run panics. R06e InsertLogs does all its statements inside withTransaction→RunInTx on the transaction handle and drops no error. R06f no executor returns an error after a successful hand-off. R06g when the completion channel carries the outcome (chan error), no received outcome is discarded.",
 		NotDecided:  "durability of PostgreSQL commits; client-visible behaviour when the process dies between commit and acknowledgement (the log exists, the client saw no answer — allowed by the statement).",
 		Trusted:     []string{"channel close/receive semantics", "pond worker pool runs the submitted function", "database/sql transaction semantics"},
 		Assumptions: []string{"the process terminates on an unrecovered panic in the commander's goroutine"},
@@ -25,6 +25,7 @@ func init() {
 		ruleR06cd(c)
 		ruleR06e(c)
 		ruleR06f(c)
+		ruleR06g(c)
 	})
 }
 
@@ -300,8 +301,11 @@ func isDoneChanType(t types.Type) bool {
 	if !ok {
 		return false
 	}
-	st, ok := ch.Elem().Underlying().(*types.Struct)
-	return ok && st.NumFields() == 0
+	if st, ok := ch.Elem().Underlying().(*types.Struct); ok && st.NumFields() == 0 {
+		return true
+	}
+	// a completion channel may also carry the outcome of the persistence
+	return isErrorType(ch.Elem())
 }
 
 func isExecLog(v ssa.Value, execParam *ssa.Parameter) bool {
@@ -860,5 +864,38 @@ func ruleR06fAs(c *Ctx, rule, message string) {
 	}
 	if n == 0 {
 		obl.undecided("floor:handoff-functions", token.NoPos, "no function hands a log off")
+	}
+}
+
+
+// R06g — a completion channel that carries the outcome of the persistence (chan error): the received value is
+// the only trace of a failed insertion, so it must be used where it is received; and since the value is
+// delivered once (the channel is then closed, later receives see nil), a path may receive at most once from the
+// channel of one hand-off before the outcome is returned.
+func ruleR06g(c *Ctx) {
+	const rule = "R06g"
+	m := c.cmdModel(rule)
+	if !m.ok {
+		return
+	}
+	n := 0
+	for _, fn := range m.fns {
+		for _, b := range fn.Blocks {
+			for _, ins := range b.Instrs {
+				u, ok := ins.(*ssa.UnOp)
+				if !ok || u.Op != token.ARROW {
+					continue
+				}
+				ch, ok := u.X.Type().Underlying().(*types.Chan)
+				if !ok || !isErrorType(ch.Elem()) {
+					continue
+				}
+				n++
+				c.check(hasRealReferrer(u), rule, fmt.Sprintf("%s:received-outcome-used#%d", fnName(fn), n), u.Pos(), "the received outcome is used", fnName(fn)+" receives the outcome of the persistence from the completion channel and discards it: the single error value is consumed here, every later receive sees nil, and a failed insertion is acknowledged as a success")
+			}
+		}
+	}
+	if n == 0 {
+		c.ok(rule, "completion-channels-carry-no-outcome", token.NoPos, "the completion channels of package command carry no value (chan struct{}): there is no outcome to lose")
 	}
 }
